@@ -245,6 +245,8 @@ func (c Config) Secret() string {
 		tags = append(tags, []string{"locktime", strconv.FormatInt(time.Now().Unix()-86400, 10)})
 	case "future":
 		tags = append(tags, []string{"locktime", strconv.FormatInt(time.Now().Unix()+86400, 10)})
+	case "future2":
+		tags = append(tags, []string{"locktime", strconv.FormatInt(time.Now().Unix()+2*86400, 10)})
 	}
 	if c.NRefund > 0 {
 		rf := []string{"refund"}
